@@ -105,6 +105,9 @@ def build_file(c, shape):
     return tf, n, tp
 
 
+_TIER = ["thorough"]
+
+
 def make_iter(shape, NE, with_unlexable=False):
     regions, visits = SHAPES[shape]
     untemplated = all(k == "L" for k in regions)
@@ -150,7 +153,8 @@ def make_iter(shape, NE, with_unlexable=False):
                 # the token stream as the PARSER receives it: Linter._lex_templated_file filters template indents when
                 # template_blocks_indent is off (or the indents do not balance); tokens and placeholders must survive
                 import sqlfluff.core.linter.linter as _lm
-                tbi = choose(c, "template_blocks_indent", [True, False, "force"])
+                # quick tier: only the setting under which the filter acts; thorough: all three
+                tbi = choose(c, "template_blocks_indent", [True, False, "force"]) if _TIER[0] != "quick" else False
 
                 class _Cfg:
                     def get(self, key, section="core", default=None):
@@ -258,7 +262,7 @@ def replay_iter(shape, NE, with_unlexable=False):
         if cex.get("through_linter_filter"):
             import sqlfluff.core.linter.linter as _lm
             from sqlfluff.core import FluffConfig
-            tbi = [True, False, "force"][int(cex.get("template_blocks_indent", 0))]
+            tbi = [True, False, "force"][int(cex["template_blocks_indent"])] if "template_blocks_indent" in cex else False
             cfg = FluffConfig(overrides={"dialect": "ansi"}, configs={"indentation": {"template_blocks_indent": tbi}})
             pre = segs
 
@@ -550,6 +554,7 @@ FUNCS_ITER = ["sqlfluff.core.parser.lexer.PyLexer.map_template_slices", "sqlfluf
 
 
 def units(tier, seed):
+    _TIER[0] = tier
     us = []
     if tier == "quick":
         iters = [("L", 4), ("LTL", 4), ("TL", 3), ("LT", 3), ("LCL", 4), ("LSLEL", 3), ("LZL", 3), ("loop2", 4),
